@@ -131,5 +131,6 @@ SummaryOf(chs, P, K, kind, thetas) == SummaryOfG(chs, P, K, kind, thetas, TRUE)
 ChainRetained(t, C, S, c, burn, lb) ==
   LET cells == RetainedCells(C, S, burn)
       srt == SelectSeq([s \in 1..S |-> s], LAMBDA s : <<c, s>> \in cells)
-  IN  [j \in 1..Len(srt) |-> LET g == Canon(t[c][srt[j]]) IN [q \in 1..Len(g) |-> lb[g[q] + 1]]]
+  IN  \* TLCEval: function constructors are lazy closures, every later application would canonicalise again
+      TLCEval([j \in 1..Len(srt) |-> LET g == Canon(t[c][srt[j]]) IN TLCEval([q \in 1..Len(g) |-> lb[g[q] + 1]])])
 =============================================================================
